@@ -4,6 +4,9 @@ Correspondence: the private `yaml_find_key_position` (event_consumer.rs 1486-150
 labels of the "Unsupported value for key" and "Time overriden" warnings of CooklangParser::parse
 (harness/src/bin/yamlkey.rs prints them with the front matter text and its offset); the extracted
 `yaml_find_key_position` (runner/yamlkey_main.ml) must give the same positions.
+Form FYamlErr (the label of a front matter serde_yaml rejects): the harness asks serde_yaml itself for the error and
+its location and prints every label of the diagnostic with that message; the label must be offset + index, or the
+span of the whole front matter text when the error has no location (45a4888).
 Oracle hypothesis `yaml_index_ok` of C04_analysis_labels_ok: the location serde_yaml reports for a rejected
 front matter is a character boundary of the text (checked on every rejected front matter seen).
 Independent monitor: every position printed is a character boundary of the input.
@@ -55,6 +58,10 @@ def gen_doc(rng):
     body = nl.join(lines)
     if rng.random() < 0.2:
         body = body.replace("\n", "\n\n", 1)
+    if rng.random() < 0.06:
+        # a second document: an error without a location
+        k = rng.randint(0, len(lines))
+        body = nl.join(lines[:k] + ["..."] + lines[k:])
     head = rng.choice(["", "", "", "\n", " \n", "\ufeff"])
     tail = rng.choice(["step @a{} ~{5%min}", "", ">> time: 2h\n>> prep time: 1h\nstep", "é\n"])
     return "%s---%s%s%s---%s%s" % (head, nl, body, nl, nl, tail)
@@ -77,7 +84,8 @@ def run_cases(docs):
     runner = common.build_runner("yamlkey", DEPS, commons=("common_n.ml",))
     outs = common.run_lines(exe, [hx(s) for s in docs], tag="impl-yamlkey")
     st = {"documents": len(docs), "with_front_matter": 0, "unsupported_value_labels": 0, "time_overriden_warnings": 0,
-          "yaml_errors_with_location": 0, "key_positions_compared": 0, "positions_found": 0, "positions_not_found": 0,
+          "yaml_errors_with_location": 0, "yaml_error_labels_compared": 0, "yaml_errors_without_location": 0,
+          "key_positions_compared": 0, "positions_found": 0, "positions_not_found": 0,
           "parse_panics": 0, "samples": []}
     dis = []
     asks = []     # (doc index, kind, key, labels)
@@ -99,6 +107,24 @@ def run_cases(docs):
         inb = docs[i].encode("utf-8")
         for _ in range(n):
             kind = d[j]
+            if kind == "F":
+                # the label of a front matter serde_yaml rejects, against serde_yaml's own location (form FYamlErr
+                # of Model/AnalysisLabels.v: offset + index, or the span of the whole text without a location)
+                idx, k = d[j + 1], int(d[j + 2])
+                got = [(int(d[j + 3 + 2 * m]), int(d[j + 4 + 2 * m])) for m in range(k)]
+                j += 3 + 2 * k
+                ylen = len(bytes.fromhex(yhex[1:]))
+                want = [(off, off + ylen)] if idx == "-" else [(off + int(idx), off + int(idx))]
+                st["yaml_error_labels_compared"] += 1
+                st["yaml_errors_without_location"] += idx == "-"
+                if got != want:
+                    dis.append((docs[i], {"input": docs[i], "input_hex": hx(docs[i]),
+                                          "what": "front matter error label: the model's form FYamlErr and the "
+                                                  "implementation disagree", "serde_yaml_index": idx,
+                                          "impl_labels": got, "model_labels": want, "yaml_off": off}))
+                elif idx == "-" and len(st["samples"]) < 4 and not any(x.get("kind") == "F" for x in st["samples"]):
+                    st["samples"].append({"input": docs[i], "kind": "F", "labels": got})
+                continue
             if kind == "U":
                 key, k = d[j + 1], int(d[j + 2])
                 labels = d[j + 3:j + 3 + k]
@@ -174,6 +200,10 @@ SPECIALS = [
     "---\r\ntime: 1h\r\ncook time: 5 min\r\n---\r\nx",
     "---\n名前: 1\ntime: bad value\n---\n",
     "---\ntime: 1h\ntime: 2h\n---\n",
+    # serde_yaml gives no location for "more than one document": the label is the whole front matter (45a4888)
+    "---\na: 1\n...\nb: 2\n---\nstep",
+    "---\né: 1\n...\n名: 2\n---\n@é{}",
+    "\ufeff---\na: 1\n...\n---\n",
 ]
 
 
